@@ -163,6 +163,12 @@ Notation rS r := (fst (fst (fst r))).
 Notation rO r := (snd (fst (fst r))).
 Notation rX r := (snd r).
 
+(* the caught ValueError of a stale un-publication changes only the exception component *)
+Lemma catch_S r : rS (catch_value_error r) = rS r.
+Proof. reflexivity. Qed.
+Lemma catch_O r : rO (catch_value_error r) = rO r.
+Proof. reflexivity. Qed.
+
 Lemma bind_S r f : rS (bind r f) = match rX r with Some _ => rS r | None => rS (f (rS r)) end.
 Proof. destruct r as [[[s o] e] [x|]]; simpl; auto. destruct (f s) as [[[s' o'] e'] x']; reflexivity. Qed.
 Lemma bind_O r f : rO (bind r f) = match rX r with Some _ => rO r | None => rO r ++ rO (f (rS r)) end.
